@@ -37,9 +37,11 @@ def cases(rng, tier):
     for _ in range(nfiles):
         bl = rand_blocks(rng)
         v = rng.choice([1, 1, 2, 2, 2])
-        mode = rng.choice(["none", "none", "crc", "crc", "bad"])
+        mode = rng.choice(["none", "none", "crc", "crc", "bad", "zero"])
         feats = rng.choice([0, 0, 0, 2, 0x80, 0xfe])
         data = skyb.container(bl, version=v, features=feats, with_crc=(mode != "none"), bad_crc=(mode == "bad"))
+        if mode == "zero" and v == 2 and data[6:10] != b"\0\0\0\0":
+            data = data[:6] + b"\0\0\0\0" + data[10:]       # checksum feature set, field all zero: corrupted, not "no checksum"
         files.append(("gen-v%d-%s" % (v, mode), data, bl))
     # a block with a long body and a length field that claims more than there is
     big = skyb.container([(3, bytes(300)), (1, bytes(range(9)))], version=1)
